@@ -85,7 +85,7 @@ def op_strategy(draw, v, led, weights, backend="file", history=()):
             continue
         if k == "reopen" and backend != "file":
             continue
-        if k in ("rule", "unrule", "clear") and v.mode == "raw":
+        if k in ("rule", "unrule") and v.mode == "raw":
             continue
         if k == "again" and not any(o[0] in ("page", "pages", "links", "batch") for o in history):
             continue
@@ -215,7 +215,7 @@ def op_strategy(draw, v, led, weights, backend="file", history=()):
     if kind == "reopen":
         return ("reopen",)
     if kind == "clear":
-        n = draw(st.sampled_from([0, 1, 2]))
+        n = 0 if v.mode == "raw" else draw(st.sampled_from([0, 1, 2]))
         rules = []
         for _ in range(n):
             a = draw(anchor_strategy(v, known))
